@@ -312,6 +312,10 @@ func genText(r *coqfmt.Rng, t reflect.Type) (text string, bad bool) {
 			}
 			return coqfmt.Pick(r, []string{"", "x", "1..2", "--1", "1e", "1e400"}), true
 		}
+		if r.Chance(1, 10) {
+			// strconv's infinities: a value of either float size, never an overflow
+			return coqfmt.Pick(r, []string{"Inf", "-Infinity", "+inf", "iNf", "-INF", "infinity"}), false
+		}
 		return coqfmt.Pick(r, floatTexts), false
 	case reflect.Complex64, reflect.Complex128:
 		if r.Chance(1, 6) {
@@ -673,13 +677,13 @@ func run(raw json.RawMessage) driver.Result {
 	stackTerm := "(Err 0)"
 	defaults := reflect.New(T)
 	rty.GenValue(r, defaults.Elem(), rty.VOpts{NilNum: 1, NilDen: 3}, 0)
-	defTerm := rty.StructFieldsTerm(defaults.Elem())
+	defTerm := rty.ValuePrinter.StructFieldsTerm(defaults.Elem())
 	if err == nil && !panicked {
-		okTerm = rty.StructFieldsTerm(val)
+		okTerm = rty.ValuePrinter.StructFieldsTerm(val)
 		res, serr, spanic := composeSafe(defaults, []reflect.Value{val})
 		st := ""
 		if serr == nil && !spanic {
-			st = rty.StructFieldsTerm(res)
+			st = rty.ValuePrinter.StructFieldsTerm(res)
 		}
 		stackTerm = driver.Outcome(st, serr, spanic)
 	}
